@@ -3,6 +3,7 @@ package replication
 import (
 	"context"
 	"math/rand"
+	"sync"
 	"time"
 
 	logging "github.com/formancehq/go-libs/v5/pkg/observe/log"
@@ -68,6 +69,11 @@ type PipelineHandler struct {
 	exporter       drivers.Driver
 	pipelineConfig PipelineHandlerConfig
 	logger         logging.Logger
+
+	// stateMu serializes the persistence of the pipeline state with the end of
+	// stopPipeline; stateDiscarded is set once the pipeline has been stopped.
+	stateMu        sync.Mutex
+	stateDiscarded bool
 }
 
 func (p *PipelineHandler) Run(ctx context.Context, ingestedLogs chan uint64) {
